@@ -2,7 +2,8 @@
 design : RulesAddress_MC - the complete decision table (prefix x hex validity x decoded length x checksum x case);
          the step-by-step model of the parser conforms to the property on every row                 [TLC exhaustive]
 binding: (tv) the Go driver instantiates every row of the same table K times with seeded bytes and the real checksum
-         function and records what StringToAddress / UnmarshalText did; seeded addresses are formatted, lexed back
+         function and records what StringToAddress / UnmarshalText did; strings with checksum / hash material of a full
+         address in the wrong place (address ++ any hash suffix, checksum in front / middle / doubled ...) are added; seeded addresses are formatted, lexed back
          into the table's features and re-parsed; TLC decides every recorded row"""
 import json
 import os
@@ -42,6 +43,7 @@ def run(ctx):
     _rules.stage(ctx, "design(tlc)")
     rc, out = vlib.go_driver(ctx, PKG, "^TestVerifAddressRecord$", files=FILES,
                              env={"VERIF_K": ctx.pick(5, 60), "VERIF_FORMAT": ctx.pick(1000, 20000),
+                                  "VERIF_MISPLACED": ctx.pick(20, 400),
                                   "VERIF_TOTALS": ",".join(map(str, TOTALS))})
     outd = os.path.join(ctx.work, "out")
     sp = os.path.join(outd, "address_summary.json")
@@ -69,25 +71,31 @@ def run(ctx):
     _rules.stage(ctx, "tv(tlc)")
     ctx.add("evaluations", n)
     # distinct strings; non-trivial = everything but the plain canonical accept path
-    nontrivial = {r["s"] for r in rows if r["kind"] == "parse" and feat(r) != ("0x", "valid", 37, "right", "lower")}
+    nontrivial = {r["s"] for r in rows if r["kind"] in ("parse", "parse-x")
+                  and feat(r) != ("0x", "valid", 37, "right", "lower")}
     ctx.add("distinct_nontrivial", len(nontrivial))
     ctx.add("table_rows_covered", len(covered))
     ctx.add("table_rows_uninstantiable", len(unin))
     ctx.add("format_roundtrips", sum(1 for r in rows if r["kind"] == "format"))
     ctx.add("wrong_length_right_checksum_strings", sum(1 for r in rows if r["kind"] == "parse" and r["hex"] == "valid"
                                                        and r["sum"] == "right" and r["total"] != 37))
+    ctx.add("misplaced_checksum_strings", sum(1 for r in rows if r["kind"] == "parse-x" and r["sum"] == "wrong"))
     ctx.add("rows_rejected_by_spec", len(rejected))
     ctx.add("traces_validated_against_impl", n - len(rejected))
     ctx.cov["exhaustive"] = mc is not None
-    if ctx.only is None and not ctx.cov["wrong_length_right_checksum_strings"]:
-        raise vlib.Infra("vacuity: no wrong-length string with a right checksum was tried")
+    if ctx.only is None and not (ctx.cov["wrong_length_right_checksum_strings"] and ctx.cov["misplaced_checksum_strings"]):
+        raise vlib.Infra("vacuity: no wrong-length string with a right checksum / no misplaced-checksum string was tried")
     ctx.sample({"kind": "parse row", "row": next((r for r in rows if r["kind"] == "parse" and r["total"] == 38), rows[0])})
+    ctx.sample({"kind": "misplaced-checksum row", "row": next((r for r in rows if r["kind"] == "parse-x"), rows[0])})
     ctx.sample({"kind": "format row", "row": rows[-1]})
     fails = _rules.failures_from(ctx, rejected, sig, "tv")
     vlib.report_failures(ctx, fails, lambda f: "%s: %s" % (f["invariant"], json.dumps(f["event"])[:400]))
     ctx.cov["rule"] = ("every row of the decision table of RulesAddress_MC (2 prefixes x 3 hex kinds x decoded lengths %s x "
                        "checksum right/wrong x case lower/upper/mixed; coverage of the table is cross-checked against "
-                       "TLC's state count) instantiated with seeded random bytes and the real checksum, plus seeded "
+                       "TLC's state count) instantiated with seeded random bytes and the real checksum, plus strings "
+                       "that carry checksum / hash material of a full address in the wrong place (address ++ hash suffix "
+                       "of every length 0..32 but 4, hash prefix / middle, checksum in front / in the middle / reversed / "
+                       "doubled / followed by extra bytes; features lexed from the string), plus seeded "
                        "address format->lex->parse round trips. distinct = distinct input strings; non-trivial = not the "
                        "canonical well-formed encoding" % TOTALS)
     ctx.assumptions += ["hashing.Checksum (avalanchego) is the definition of the checksum",
